@@ -1105,8 +1105,11 @@ class CSSMatch(_DocumentNav):
 
         match = True
         content = None  # type: str | Sequence[str] | None
+        own = None  # type: bool | None
         for contain_list in contains:
-            if content is None:
+            # The text is gathered once per kind (own text is a list of strings, descendant text a single string)
+            if content is None or own is not contain_list.own:
+                own = contain_list.own
                 if contain_list.own:
                     content = self.get_own_text(el, no_iframe=self.is_html)
                 else:
